@@ -249,7 +249,12 @@ func (t *TCP) SerializeTo(b gopacket.SerializeBuffer, opts gopacket.SerializeOpt
 }
 
 func (t *TCP) ComputeChecksum() (uint16, error) {
-	csum, err := t.computeChecksum(append(t.Contents, t.Payload...), IPProtocolTCP)
+	// Do not append to t.Contents directly: it has spare capacity inside the
+	// packet buffer, so that would write into (shared) packet data.
+	bytes := make([]byte, 0, len(t.Contents)+len(t.Payload))
+	bytes = append(bytes, t.Contents...)
+	bytes = append(bytes, t.Payload...)
+	csum, err := t.computeChecksum(bytes, IPProtocolTCP)
 	if err != nil {
 		return 0, err
 	}
@@ -624,7 +629,11 @@ func (t *TCP) SetInternalPortsForTesting() {
 }
 
 func (t *TCP) VerifyChecksum() (error, gopacket.ChecksumVerificationResult) {
-	bytes := append(t.Contents, t.Payload...)
+	// Do not append to t.Contents directly: it has spare capacity inside the
+	// packet buffer, so that would write into (shared) packet data.
+	bytes := make([]byte, 0, len(t.Contents)+len(t.Payload))
+	bytes = append(bytes, t.Contents...)
+	bytes = append(bytes, t.Payload...)
 
 	existing := t.Checksum
 	verification, err := t.computeChecksum(bytes, IPProtocolTCP)
